@@ -2,7 +2,7 @@
 from facts import AnalysisBroken
 from model import (norm_cond, facts_str, path_value, dstr, strip, fact_holds, mentions_field, mentions_call, mentions_var,
                    mentions_enum, const_value, walk)
-from rules import (absent_from, guarded, calls_to, field_writes, who_may_call, must_pass, dominated_by,
+from rules import (stores_to, absent_from, guarded, calls_to, field_writes, who_may_call, must_pass, dominated_by,
                    full_range, loops_over, every_iteration_passes, basename, error_discipline,
                    origins, reject_if, skip_conditions_exact, is_enum, is_field, is_var,
                    reached_only_via, canon_before_intern, loop_blocks)
@@ -126,22 +126,28 @@ def run(ctx):
     rei = prog.fn('DependencyScan::RecomputeEdgesInputsDirty')
     isrange = lambda d: isinstance(d, dict) and d.get('k') == 'var' and d['n'].split('#')[0] == 'input_range'
     ls = loops_over(rei, isrange)
-    ctx.check('C01.O1', len(ls) == 2 and all(l['full'] for l in ls), rei.name, 'inputs-scan:loops', rei.loc,
-              'two full loops over the given input range (visit, then evaluate): %s' % [(l['style'], l['full']) for l in ls])
+    ctx.check('C01.O1', len(ls) >= 2 and all(l['full'] for l in ls), rei.name, 'inputs-scan:loops', rei.loc,
+              'full loops over the given input range (visit, then evaluate): %s' % [(l['style'], l['full']) for l in ls])
+    is_visit = lambda x: x['k'] == 'call' and x.get('name') == 'DependencyScan::RecomputeNodeDirty'
+    is_eval = lambda x: x['k'] == 'asg' and (stores_to('dirty')(x['l']) or mentions_var(x['l'], 'most_recent_input'))
+    nvisit = neval = 0
     for l in ls:
-        if l['style'] == 'range':
-            every_iteration_passes(ctx, 'C01.O1', rei, l, lambda x: x['k'] == 'call' and
-                                   x.get('name') == 'DependencyScan::RecomputeNodeDirty',
-                                   'every input is scanned recursively', 'inputs-scan:input-skipped')
-        else:
+        inside = loop_blocks(rei, l)
+        evs = [x for b_ in inside for x in rei.blocks[b_]['ev']]
+        if any(is_visit(x) for x in evs):
+            nvisit += 1
+            every_iteration_passes(ctx, 'C01.O1', rei, l, is_visit, 'every input is scanned recursively', 'inputs-scan:input-skipped')
+        if any(is_eval(x) for x in evs):
+            neval += 1
             # max-update / dirty propagation: an iteration may only skip it for an order-only input
             skip_conditions_exact(
-                ctx, 'C01.O1', rei, l,
-                lambda x: x['k'] == 'asg' and (is_var('dirty')(x['l']) or mentions_var(x['l'], 'most_recent_input')),
+                ctx, 'C01.O1', rei, l, is_eval,
                 [(lambda a: mentions_field(a, 'Edge::order_only_deps_'), False),
                  (lambda a: mentions_var(a, 'most_recent_input') and ('Node::mtime_' in dstr(a)), False)],
                 'an input takes part in the dirty / most-recent-input computation unless it is '
                 'order-only or not newer than the current maximum', 'inputs-scan:extra-skip')
+    ctx.check('C01.O1', nvisit >= 1 and neval >= 1, rei.name, 'inputs-scan:visit-or-evaluate-missing', rei.loc,
+              'one loop visits every input, one evaluates every input (%d / %d)' % (nvisit, neval))
     scan = prog.fn('DependencyScan::RecomputeNodeDirty')
     calls = list(scan.calls('DependencyScan::RecomputeEdgesInputsDirty'))
     ctx.check('C01.O1', len(calls) == 2, scan.name, 'scan:inputs-scan-calls', scan.loc,
